@@ -17,4 +17,6 @@ require (
 	mvdan.cc/gofumpt v0.8.0 // indirect
 )
 
+require (
+
 replace github.com/octohelm/gengo => /repo
